@@ -28,13 +28,21 @@ CONSTANTS MiniLen,       \* bytes per mini sector
 
 CeilDiv(a, b) == (a + b - 1) \div b
 
-(* Follow a chain through a table (sector s lives at index s + 1).         *)
-RECURSIVE ChainGo(_, _, _, _)
-ChainGo(tab, cur, acc, fuel) ==
-  IF cur = ENDC THEN [ok |-> TRUE, secs |-> acc]
-  ELSE IF cur < 0 \/ cur >= Len(tab) \/ fuel = 0 THEN [ok |-> FALSE, secs |-> acc]
-  ELSE ChainGo(tab, tab[cur + 1], Append(acc, cur), fuel - 1)
-Chain(tab, start) == ChainGo(tab, start, <<>>, Len(tab))
+(* Follow a chain through a table (sector s lives at index s + 1) for at most k steps, by     *)
+(* halving: TLC evaluates a recursion of depth n in time quadratic in n, and the images of    *)
+(* the DIFAT-sized histories have chains of 14,000 sectors.  k = table size + 1, so a cycle   *)
+(* or a dangling link leaves the walk without having reached END: the chain is "not ok".      *)
+RECURSIVE ChainSeg(_, _, _)
+ChainSeg(tab, cur, k) ==
+  IF cur = ENDC THEN [s |-> <<>>, nx |-> ENDC, bad |-> FALSE]
+  ELSE IF cur < 0 \/ cur >= Len(tab) THEN [s |-> <<>>, nx |-> cur, bad |-> TRUE]
+  ELSE IF k <= 1 THEN [s |-> <<cur>>, nx |-> tab[cur + 1], bad |-> FALSE]
+  ELSE LET h == k \div 2
+           a == ChainSeg(tab, cur, h)
+       IN IF a.bad \/ a.nx = ENDC THEN a
+          ELSE LET b == ChainSeg(tab, a.nx, k - h) IN [s |-> a.s \o b.s, nx |-> b.nx, bad |-> b.bad]
+Chain(tab, start) ==
+  LET r == ChainSeg(tab, start, Len(tab) + 1) IN [ok |-> ~r.bad /\ r.nx = ENDC, secs |-> r.s]
 
 NoDup(s) == Cardinality(ToSet(s)) = Len(s)
 RECURSIVE Flatten(_)
@@ -139,14 +147,21 @@ R2fat(img) ==
   /\ img.fat_len >= img.nsec
   /\ img.fat_tail_nonfree = 0
   /\ Len(img.fat) = img.nsec
-R2minifat(img) ==
-  /\ MfChain(img).ok
-  /\ img.hdr.nminifat = Len(MfChain(img).secs)
-  /\ img.minifat_secs = MfChain(img).secs
-R2dir(img) ==
-  /\ DirChain(img).ok /\ DirChain(img).secs # <<>>
-  /\ img.dir_secs = DirChain(img).secs
-  /\ img.hdr.ndir = (IF img.hdr.major = 4 THEN Len(DirChain(img).secs) ELSE 0)
+(* Every chain of the image, followed ONCE (TLC does not memoise operator applications; an image *)
+(* with 14,000 sectors makes each walk expensive).  All chain-dependent rules take this record. *)
+Chains(img) ==
+  [dir  |-> DirChain(img), mf |-> MfChain(img), root |-> RootChain(img),
+   big  |-> [i \in BigStreams(img) |-> BigChain(img, i)],
+   mini |-> [i \in SmallStreams(img) |-> MiniChain(img, i)]]
+
+R2minifat(img, C) ==
+  /\ C.mf.ok
+  /\ img.hdr.nminifat = Len(C.mf.secs)
+  /\ img.minifat_secs = C.mf.secs
+R2dir(img, C) ==
+  /\ C.dir.ok /\ C.dir.secs # <<>>
+  /\ img.dir_secs = C.dir.secs
+  /\ img.hdr.ndir = (IF img.hdr.major = 4 THEN Len(C.dir.secs) ELSE 0)
 
 R3(img) ==
   LET F == ToSet(DifatList(img))
@@ -160,45 +175,42 @@ R3(img) ==
           /\ fat[s + 1] \notin {INVALIDM, BIGM}
 
 (* all regular-sector chains and who owns them *)
-OwnerChains(img) ==
-  <<DirChain(img), MfChain(img), RootChain(img)>>
-  \o [k \in 1..Cardinality(BigStreams(img)) |->
-        BigChain(img, SeqOfSet(BigStreams(img))[k])]
-R4chains(img) == \A k \in 1..Len(OwnerChains(img)) : OwnerChains(img)[k].ok
-R4own(img) ==
-  LET all == Flatten([k \in 1..Len(OwnerChains(img)) |-> OwnerChains(img)[k].secs])
+BigSeq(img, C) == LET bs == SeqOfSet(DOMAIN C.big) IN [k \in 1..Len(bs) |-> C.big[bs[k]]]
+R4chains(img, C) ==
+  /\ C.dir.ok /\ C.mf.ok /\ C.root.ok
+  /\ \A i \in DOMAIN C.big : C.big[i].ok
+R4own(img, C) ==
+  LET bigs == BigSeq(img, C)
+      all == C.dir.secs \o C.mf.secs \o C.root.secs \o Flatten([k \in 1..Len(bigs) |-> bigs[k].secs])
       fat == Fat(img)
       used == {s \in 0..(Len(fat) - 1) : fat[s + 1] # FREE}
   IN /\ NoDup(all)                                                 \* at most one owner
      /\ used = ToSet(all) \cup ToSet(DifatList(img)) \cup ToSet(img.difat_secs)   \* no leak
-MiniOwnerChains(img) ==
-  [k \in 1..Cardinality(SmallStreams(img)) |->
-      MiniChain(img, SeqOfSet(SmallStreams(img))[k])]
-R4mini(img) ==
-  LET cs == MiniOwnerChains(img)
-      all == Flatten([k \in 1..Len(cs) |-> cs[k].secs])
+R4mini(img, C) ==
+  LET ms == SeqOfSet(DOMAIN C.mini)
+      all == Flatten([k \in 1..Len(ms) |-> C.mini[ms[k]].secs])
       used == {m \in 0..(Len(img.minifat) - 1) : img.minifat[m + 1] # FREE}
-  IN /\ \A k \in 1..Len(cs) : cs[k].ok
+  IN /\ \A i \in DOMAIN C.mini : C.mini[i].ok
      /\ NoDup(all)
      /\ used = ToSet(all)
      /\ \A m \in 1..Len(img.minifat) : img.minifat[m] \notin {FATM, DIFATM, INVALIDM, BIGM}
 
-R5(img) ==
+R5(img, C) ==
   \A i \in StreamIds(img) :
     LET s == Slot(img, i) IN
     /\ s.size # BIGM
     /\ (s.size = 0 <=> s.start = ENDC)
-    /\ (s.size >= CutoffLen => Len(BigChain(img, i).secs) = CeilDiv(s.size, img.slen))
-    /\ (s.size > 0 /\ s.size < CutoffLen => Len(MiniChain(img, i).secs) = CeilDiv(s.size, MiniLen))
+    /\ (s.size >= CutoffLen => Len(C.big[i].secs) = CeilDiv(s.size, img.slen))
+    /\ (s.size > 0 /\ s.size < CutoffLen => Len(C.mini[i].secs) = CeilDiv(s.size, MiniLen))
 
-R6(img) ==
+R6(img, C) ==
   LET r == RootSlot(img) IN
   /\ r.size # BIGM /\ r.size >= 0
   /\ r.size % MiniLen = 0
   /\ r.size \div MiniLen >= Len(img.minifat)                 \* covers every used mini sector
-  /\ r.size <= Len(RootChain(img).secs) * img.slen          \* and has room in its chain
+  /\ r.size <= Len(C.root.secs) * img.slen                   \* and has room in its chain
   /\ (r.start = ENDC => r.size = 0)
-  /\ img.root_secs = RootChain(img).secs
+  /\ img.root_secs = C.root.secs
   /\ img.minifat_rawlen >= Len(img.minifat)
 
 R7shape(img) == TreeShapeOK(img)
@@ -234,23 +246,25 @@ R8blank(img) ==
 
 (* Names of the failing rules, in a fixed order.  Rules whose evaluation     *)
 (* presupposes another rule are only evaluated when that one holds.          *)
-WFFailures(img) ==
+(* C is Chains(img); it is only looked at when the FAT itself is usable.     *)
+WFFailuresC(img, C) ==
   IF img.short \/ ~img.geometry THEN <<"R1">>
   ELSE
   LET basic == R2fat(img)
       shape == NSlots(img) >= 1 /\ R7shape(img)
-      chains == basic /\ NSlots(img) >= 1 /\ R4chains(img)
+      chains == basic /\ NSlots(img) >= 1 /\ R4chains(img, C)
+      minis == NSlots(img) >= 1 /\ R4mini(img, C)
   IN SelectSeq(
        << <<"R1", R1(img)>>, <<"R1len", R1len(img)>>,
           <<"R2difat", R2difat(img)>>, <<"R2fat", basic>>,
-          <<"R2minifat", basic => R2minifat(img)>>, <<"R2dir", basic => R2dir(img)>>,
+          <<"R2minifat", basic => R2minifat(img, C)>>, <<"R2dir", basic => R2dir(img, C)>>,
           <<"R3", basic => R3(img)>>,
           <<"R7shape", shape>>,
-          <<"R4chains", (basic /\ NSlots(img) >= 1) => R4chains(img)>>,
-          <<"R4own", chains => R4own(img)>>,
-          <<"R4mini", NSlots(img) >= 1 => R4mini(img)>>,
-          <<"R5", (chains /\ R4mini(img)) => R5(img)>>,
-          <<"R6", chains => R6(img)>>,
+          <<"R4chains", (basic /\ NSlots(img) >= 1) => R4chains(img, C)>>,
+          <<"R4own", chains => R4own(img, C)>>,
+          <<"R4mini", NSlots(img) >= 1 => minis>>,
+          <<"R5", (chains /\ minis) => R5(img, C)>>,
+          <<"R6", chains => R6(img, C)>>,
           <<"R7types", NSlots(img) >= 1 => R7types(img)>>,
           <<"R7order", shape => R7order(img)>>,
           <<"R7redred", shape => R7redred(img)>>,
@@ -258,40 +272,63 @@ WFFailures(img) ==
           <<"R8stream", R8stream(img)>>, <<"R8storage", R8storage(img)>>,
           <<"R8blank", R8blank(img)>> >>,
        LAMBDA r : ~r[2])
-WFNames(img) == LET f == WFFailures(img) IN [i \in 1..Len(f) |-> f[i][1]]
+WFNamesC(img, C) == LET f == WFFailuresC(img, C) IN [i \in 1..Len(f) |-> f[i][1]]
+SafeChains(img) == IF ~img.short /\ img.geometry /\ NSlots(img) >= 1 THEN Chains(img)
+                   ELSE [dir |-> [ok |-> FALSE, secs |-> <<>>], mf |-> [ok |-> FALSE, secs |-> <<>>],
+                         root |-> [ok |-> FALSE, secs |-> <<>>], big |-> <<>>, mini |-> <<>>]
+WFFailures(img) == LET C == SafeChains(img) IN WFFailuresC(img, C)
+WFNames(img) == LET C == SafeChains(img) IN WFNamesC(img, C)
 WF(img) == WFFailures(img) = <<>>
 
 ---------------------------------------------------------------------------
 (* Abstraction: the logical tree an image encodes.  Only meaningful when    *)
 (* the shape and chain rules hold; AbsOK says so.                           *)
-AbsOK(img) ==
+AbsOKC(img, C) ==
   /\ ~img.short /\ img.geometry /\ NSlots(img) >= 1
-  /\ R7shape(img) /\ R2fat(img) /\ R4chains(img) /\ R4mini(img)
+  /\ R7shape(img) /\ R2fat(img) /\ R4chains(img, C) /\ R4mini(img, C)
+AbsOK(img) == LET C == SafeChains(img) IN AbsOKC(img, C)
 
-RECURSIVE CatSecs(_, _)
-CatSecs(img, secs) ==
-  IF secs = <<>> THEN <<>> ELSE img.sec[Head(secs) + 1] \o CatSecs(img, Tail(secs))
-RECURSIVE CatMinis(_, _)
+(* Concatenation of the (mini) sectors of a chain as ONE normalised run list.  The accumulator  *)
+(* merges equal neighbours as it goes, so a 14,000-sector stream of a few fills stays a few runs *)
+(* long (a plain concatenation followed by RNorm is quadratic in the number of sectors).         *)
+AddRun(acc, r) ==
+  IF r[2] = 0 THEN acc
+  ELSE IF acc # <<>> /\ acc[Len(acc)][1] = r[1] THEN [acc EXCEPT ![Len(acc)] = <<r[1], @[2] + r[2]>>]
+  ELSE Append(acc, r)
+RECURSIVE AddRuns(_, _, _)
+AddRuns(acc, rs, i) == IF i > Len(rs) THEN acc ELSE AddRuns(AddRun(acc, rs[i]), rs, i + 1)
+(* joins two normalised run lists *)
+JoinRuns(a, b) ==
+  IF a = <<>> THEN b ELSE IF b = <<>> THEN a
+  ELSE IF a[Len(a)][1] = b[1][1]
+       THEN SubSeq(a, 1, Len(a) - 1) \o <<<<b[1][1], a[Len(a)][2] + b[1][2]>>>> \o SubSeq(b, 2, Len(b))
+       ELSE a \o b
+RECURSIVE CatRange(_, _, _)
+(* normalised concatenation of pieces[lo..hi] (each piece a run list), by halving *)
+CatRange(pieces, lo, hi) ==
+  IF lo > hi THEN <<>>
+  ELSE IF lo = hi THEN AddRuns(<<>>, pieces[lo], 1)
+  ELSE LET mid == (lo + hi) \div 2 IN JoinRuns(CatRange(pieces, lo, mid), CatRange(pieces, mid + 1, hi))
+CatSecs(img, secs) == CatRange([i \in 1..Len(secs) |-> img.sec[secs[i] + 1]], 1, Len(secs))
 CatMinis(img, ms) ==
-  IF ms = <<>> THEN <<>>
-  ELSE (IF Head(ms) < Len(img.minis) THEN img.minis[Head(ms) + 1] ELSE <<<<-1, MiniLen>>>>)
-       \o CatMinis(img, Tail(ms))
+  CatRange([i \in 1..Len(ms) |-> IF ms[i] < Len(img.minis) THEN img.minis[ms[i] + 1] ELSE <<<<-1, MiniLen>>>>], 1, Len(ms))
 
-StreamData(img, i) ==
+StreamData(img, C, i) ==
   LET s == Slot(img, i) IN
   IF s.size = 0 \/ s.size = BIGM THEN <<>>
-  ELSE IF s.size >= CutoffLen THEN RNorm(RTake(CatSecs(img, BigChain(img, i).secs), s.size))
-  ELSE RNorm(RTake(CatMinis(img, MiniChain(img, i).secs), s.size))
+  ELSE IF s.size >= CutoffLen THEN RNorm(RTake(CatSecs(img, C.big[i].secs), s.size))
+  ELSE RNorm(RTake(CatMinis(img, C.mini[i].secs), s.size))
 
-AbsNode(img, i) ==
+AbsNode(img, C, i) ==
   LET s == Slot(img, i) IN
   [kind |-> IF s.type = 5 THEN "root" ELSE IF s.type = 1 THEN "storage" ELSE "stream",
    name |-> IF i = 0 THEN RootName ELSE s.name,
-   data |-> IF s.type = 2 THEN StreamData(img, i) ELSE <<>>,
+   data |-> IF s.type = 2 THEN StreamData(img, C, i) ELSE <<>>,
    clsid |-> s.clsid, bits |-> s.bits, ct |-> s.ct, mt |-> s.mt]
 
-Abs(img) ==
+AbsC(img, C) ==
   LET w == DirWalk(img)
       kps == {w[i].kp : i \in 1..Len(w)}
-  IN [kp \in kps |-> AbsNode(img, w[CHOOSE i \in 1..Len(w) : w[i].kp = kp].id)]
+  IN [kp \in kps |-> AbsNode(img, C, w[CHOOSE i \in 1..Len(w) : w[i].kp = kp].id)]
+Abs(img) == LET C == SafeChains(img) IN AbsC(img, C)
 =============================================================================
